@@ -24,6 +24,21 @@ T3        == Alt(Inc, Alt(Cat(Lit(2), W("add")), Cat(Lit(3), W("add"))))   \* (1
 
 CoreLeaves == {Lit(1), Lit(2), Emp, W("dup"), W("drop"), W("add"), E12, W("pos")}
 
+\* programs of unusual size: many branches, deep nesting, long chains of names, many splices -- loops and limits
+\* inside the implementation (chain walkers, recursion, fixed-size tables) are not reached by small programs
+RECURSIVE AltN(_, _), NestScope(_, _), LetChain(_, _), NestBlocks(_, _), NestCap(_, _), FmtN(_), NestStar(_, _)
+AltN(i, n) == IF i = n THEN Lit(n % 10) ELSE Alt(Lit(i % 10), AltN(i + 1, n))
+NestScope(i, n) == IF i > n THEN Name("N1") ELSE Scope(<<"N" \o ToString(i)>>, Cat(Lit(i % 10), NestScope(i + 1, n)))
+LetChain(i, n) == IF i > n THEN Name("L" \o ToString(n)) ELSE Cat(Let(<<"L" \o ToString(i)>>, IF i = 1 THEN Lit(1) ELSE Cat(Name("L" \o ToString(i - 1)), Inc)), LetChain(i + 1, n))
+NestBlocks(i, n) == IF i > n THEN Name("A") ELSE BApply(NestBlocks(i + 1, n))
+NestCap(i, n) == IF i > n THEN Lit(1) ELSE Cap(Alt(NestCap(i + 1, n), Lit(i % 10)))
+FmtN(n) == Fmt([i \in 1..(2 * n) |-> IF i % 2 = 1 THEN FLit(<<"<">>) ELSE FExp(Emp)])
+NestStar(i, n) == IF i > n THEN IncLt3 ELSE Star(NestStar(i + 1, n))
+ScalePrograms ==
+    {AltN(1, 24), NestScope(1, 18), LetChain(1, 20), NestBlocks(1, 14), NestCap(1, 12), NestStar(1, 6),
+     Cat(Lit(1), Cat(Lit(2), Cat(Lit(3), Cat(Lit(4), Cat(Lit(5), Cat(Lit(6), FmtN(6))))))),
+     Or(Sub("?", Lit(1)), AltN(1, 9)), Cat(Cap(AltN(1, 24)), Cat(W("elem"), Opt(Inc)))}
+
 LeavesOf(f) ==
     CASE f \in {"altor", "subif"} -> CoreLeaves
       [] f = "closure" ->
@@ -37,6 +52,7 @@ LeavesOf(f) ==
       [] f = "blocks" -> {Name("A"), Name("B"), Lit(3)}
       \* who sees which binding: operands of infix operators, branches, sub-expressions, all binding and reading A / B
       [] f = "scopes" -> {Name("A"), Name("B"), Lit(1), Lit(2)}
+      [] f = "scale" -> ScalePrograms
       \* what tree::simplify rewrites: empty expressions next to one other member, E?, format strings, ALT in ALT
       [] f = "simp" -> {Emp, Lit(1)}
       \* a user binding that carries the name of a builtin word, read at several block depths
@@ -56,6 +72,7 @@ UnaryOf(f) ==
       [] f = "refeed" -> {"let1", "fmt1", "opt", "star", "sub?"}
       [] f = "shadow" -> {"bapply", "scopeL", "letL", "letFcall"}
       [] f = "simp" -> {"opt", "cap", "sub?", "fmts"}
+      [] f = "scale" -> {}
 
 BinaryOf(f) ==
     CASE f = "altor" -> {"cat", "alt", "or"}
@@ -68,6 +85,7 @@ BinaryOf(f) ==
       [] f = "refeed" -> {"cat", "or"}
       [] f = "shadow" -> {"cat"}
       [] f = "simp" -> {"cat", "alt", "or"}
+      [] f = "scale" -> {}
 
 MkUnary(u, a) ==
     CASE u = "cap"  -> Cap(a)
@@ -221,7 +239,7 @@ UsesBlocksParts(parts, j) ==
 
 \* what a family puts between the input source and the body
 Prefix(f) ==
-    IF f \in {"blocks", "scopes", "shadow"} THEN Cat(Let(<<"A">>, Emp), Let(<<"B">>, Lit(7)))   \* let A := ; let B := 7;
+    IF f \in {"blocks", "scopes", "shadow", "scale"} THEN Cat(Let(<<"A">>, Emp), Let(<<"B">>, Lit(7)))   \* let A := ; let B := 7;
     ELSE Emp
 
 \* The body is legal on a stack of depth d: names closed, effect defined.
